@@ -1,9 +1,11 @@
 SPECIFICATION Spec
 CONSTANTS
-  MaxLines = 8
+  MaxLines = 6
   MaxLive = 3
-  UseImpl = FALSE
-  EqualKinds = FALSE
+  UseImpl = TRUE
+  EqualKinds = TRUE
+INVARIANT ImplNeverRaises
+INVARIANT ImplIsReference
 INVARIANT NeverStuck
 INVARIANT EndsClosed
 INVARIANT SameGoverning
